@@ -339,9 +339,36 @@ func checkPodsFilters(c *Ctx, orderOnly bool) {
 				} else {
 					wantSel = "Labels(template)"
 					if len(appended) == 0 {
-						wantAppend = false // neither selector nor template labels: selects nothing
+						// nothing selected: only when there are no template labels either
+						noTemplate := false
+						for _, l := range pa.Lits {
+							if x, ok := isNilTest(l.T); ok && l.Val {
+								if e, p := elemPath(x); e != nil && p == ".Spec.Template" {
+									noTemplate = true
+								}
+							}
+							if l.T.K == "binop" && (l.T.S == "<" || l.T.S == "==") {
+								for _, side := range l.T.A {
+									if side.K != "len" {
+										continue
+									}
+									if e, p := elemPath(side.A[0]); e != nil && strings.HasPrefix(p, ".Spec.Template") && strings.HasSuffix(p, "Labels") {
+										if m := relBetween(pa, &Term{K: "const", S: "0"}, side); m&relLT == 0 {
+											noTemplate = true
+										}
+									}
+								}
+							}
+						}
+						if !noTemplate {
+							selOK, selDetail = false, "a controller without selector selects nothing although nothing shows that it has no template labels either (the template-labels fallback is lost)"
+						}
+						wantAppend = false
 					}
 				}
+			}
+			if len(appended) > 0 && src == nil {
+				selOK, selDetail = false, "the elements are not built from the sorted copy of the sources (the loop ranges over something else)"
 			}
 			if !wantAppend {
 				if len(appended) != 0 {
